@@ -130,6 +130,19 @@ class C11(vlib.Check):
             for f in (b'{}', b'{3}', b'{4}', b'{5}', b'{6}', b'{>6}', b'{<6}', b'{_*8}', b'{.2}', b'{.0}', b'{6.3}', b'{>06.3}', b'{x}', b'{c}', b'{+}'):
                 yield fmt_case('string', 'default', f, ['b:%d' % b])
         yield fmt_case('string', 'default', b'{}{5}|', ['sn', 'sn'])
+        # ---- widths and texts that cross the 256-byte in-object capacity of the output stream and its doublings:
+        #      padding and content land on both sides of every boundary, after a literal prefix of varying length
+        for w in (250, 255, 256, 257, 300, 511, 512, 513, 1000, 1025):
+            for pre in (b'', b'ab', b'x' * 7):
+                for f, a in ((b'{>%d}' % w, 'i32:-12345'), (b'{<%d}|' % w, 'ull:18446744073709551615'), (b'{0%d}' % w, 'i16:-7'),
+                             (b'{#0%dx}' % w, 'u32:48879'), (b'{_*>%d}' % w, 's:' + hx(b'text')), (b'{_.<%d}|' % w, 'S:' + hx('a€b'.encode())),
+                             (b'{%d}' % w, 'b:1'), (b'{>%d.3f}' % w, 'f64:400921fb54442d18'), (b'{+%db}' % w, 'i8:-128')):
+                    yield fmt_case('string', 'default', pre + f, [a])
+        for n in (250, 255, 256, 257, 300, 512, 513, 1100):
+            t = bytes(0x61 + (i % 26) for i in range(n))
+            for f in (b'{}', b'[{}]', b'{.%d}|' % (n - 1), b'{>%d}' % (n + 3), b'{<%d.%d}|' % (n + 2, n // 2), b'{}{}'):
+                for kind in ('s', 'S', 'ss'):
+                    yield fmt_case('string', 'default', f, ['%s:%s' % (kind, hx(t))] * (2 if f == b'{}{}' else 1))
         # ---- &N against sequential fields
         argsets = [['i32:1', 's:62', 'u8:3', 'S:64'], ['s:61', 'i32:-2'], ['b:1', 'c:66', 'ull:7'], ['i32:5']]
         fields = [b'{}', b'{&1}', b'{&2}', b'{&3}', b'{&4}', b'{&5}', b'{&0}', b'{x}', b'{&2x}', b'{3&1}', b'{&1_*3}']
